@@ -18,6 +18,7 @@ namespace Pg.Sym
 
 inductive Atom where
   | none | missing | int (i : Int) | str (n : Nat) | opaque (id : Nat)
+  | tup (ids : List Nat)          -- a tuple of non-symbolic leaf objects
   deriving DecidableEq, Repr, Inhabited
 
 /-- Keys: interned string names (`s n` stands for the text `k<n>`) and integers. -/
@@ -38,6 +39,7 @@ structure Meta where
   accW : Bool              -- accessor_writable
   part : Bool              -- allow_partial
   ref : Option Nat := none -- pg.Ref only: the referenced value (id of a node, or of a plain object)
+  typed : Bool := false    -- list with the value spec `pg.typing.List(pg.typing.Object(C0))`
   deriving DecidableEq, Repr, Inhabited
 
 inductive Tree where
@@ -56,10 +58,11 @@ structure Cfg where
   detachOnRemove : Bool      -- F78: `del l[i]` / `pop` / `remove` / `clear` / `popitem` detach what they remove
   insertCopiesOwn : Bool     -- F79: inserting an element of a list into that list copies it
   notifyBulk : Bool          -- 6daab50: clear / popitem / sort / reverse deliver change notifications
+  scopePartial : Option Bool := none  -- ambient: the call runs inside `with pg.allow_partial(b)`
   deriving DecidableEq, Repr
 
-def Cfg.pinned : Cfg := ⟨false, false, false, false, false, false⟩
-def Cfg.patched : Cfg := ⟨true, true, true, true, true, true⟩
+def Cfg.pinned : Cfg := ⟨false, false, false, false, false, false, none⟩
+def Cfg.patched : Cfg := ⟨true, true, true, true, true, true, none⟩
 
 /-- The object classes: 0 and 1 are the test classes of the harness (fields `k0 k1` / `k0 k1 k2`,
 all `Any`, default None, `allow_symbolic_assignment = True`); 2 is `pg.Ref`, 3 is
@@ -159,6 +162,13 @@ def renumberFrom (n : Nat) : Items → Items
 /-- list payload: the key of the i-th item is `i`. -/
 def renumber (its : Items) : Items := renumberFrom 0 its
 
+/-- a container that is bound to a value spec and is stored directly in a field of an object goes
+through `field.apply(..., allow_partial=accepts_partial(obj))`, and `List.custom_apply`
+(list.py) then takes over the holder's `allow_partial`. -/
+def adoptPartial (hobj hpart : Bool) : Tree → Tree
+  | .leaf a => .leaf a
+  | .node m its => if hobj && m.typed then .node { m with part := hpart } its else .node m its
+
 /-- `if sealed: self.seal(True)` at the end of the constructors. -/
 def sealIf (b : Bool) (t : Tree) : Tree := if b then t.seal true else t
 
@@ -178,6 +188,10 @@ mutual
   the whole fresh tree, which is the same thing. -/
   def Tree.clone (cfg : Cfg) (deep : Bool) (next : Nat) (par : Option Nat) (p : List Key) : Tree → Tree × Nat
     | .leaf (.opaque i) => if deep then (.leaf (.opaque next), next + 1) else (.leaf (.opaque i), next)
+    -- a tuple is not symbolic: shared by a shallow clone, rebuilt with copied elements by a deep one
+    | .leaf (.tup ids) =>
+      if deep then (.leaf (.tup ((List.range ids.length).map (· + next))), next + ids.length)
+      else (.leaf (.tup ids), next)
     | .leaf a => (.leaf a, next)
     | .node m its =>
       let r := cloneItems cfg deep (next + 1) next p its
@@ -185,7 +199,11 @@ mutual
       -- placeholders left by writes without notification are not copied.
       let its' := match m.kind with
         | .list => setPathItems p (renumber (r.1.filter (fun kv => !kv.2.isMissing)))
-        | _ => r.1
+        -- the constructor of the object clone stores its fields through `field.apply(...,
+        -- allow_partial=accepts_partial(self))`: spec-bound containers adopt the flag — also the
+        -- one of an enclosing `pg.allow_partial` scope (F120)
+        | .obj _ => r.1.map (fun kv => (kv.1, adoptPartial true (cfg.scopePartial.getD m.part) kv.2))
+        | .dict => r.1
       -- the constructors seal (recursively) only when asked to: `if sealed: self.seal(True)`
       (sealIf (cloneSealed cfg m)
         (Tree.node { m with id := next, parent := par, path := p, sealed := false } its'), r.2)
@@ -296,7 +314,9 @@ end Forest
 inductive VE where
   | atom (a : Atom)                 -- a leaf value as it is (an `opaque i` is that very object)
   | fresh                           -- a fresh non-symbolic object
+  | freshTuple (n : Nat)            -- a tuple of n fresh non-symbolic objects
   | mkRef (tgt : Option Nat)        -- `pg.Ref(x)`: x an existing node, or (none) a fresh plain list
+  | typedList (items : List (Key × VE))   -- `pg.List([...], value_spec=pg.typing.List(pg.typing.Object(C0)))`
   | node (kind : Kind) (sealed accW part : Bool) (items : List (Key × VE))
   | ref (id : Nat)                  -- an existing node object
   deriving Repr, Inhabited
@@ -353,6 +373,7 @@ mutual
   through `relocateRef`. The result is built for the destination (`par`, `p`). -/
   def evalVE (cfg : Cfg) (f : Forest) (pending : Option Nat) (par : Option Nat) (holderObj : Bool) (hpart : Bool) (p : List Key) : VE → Forest × Tree
     | .fresh => ({ f with nextId := f.nextId + 1 }, .leaf (.opaque f.nextId))
+    | .freshTuple n => ({ f with nextId := f.nextId + n }, .leaf (.tup ((List.range n).map (· + f.nextId))))
     | .mkRef tgt =>
       -- a Ref is a pg.Object without symbolic fields; the referenced value is not its child
       let id := f.nextId
@@ -362,6 +383,11 @@ mutual
                part := false, ref := some tg } [])
     | .atom a => (f, .leaf a)
     | .ref id => relocateRef cfg f pending par holderObj p id
+    | .typedList items =>
+      let id := f.nextId
+      let r := evalItems cfg { f with nextId := id + 1 } pending id false false p (some 0) items
+      (r.1, Tree.node { id := id, parent := par, path := p, kind := .list, sealed := false, accW := true,
+                        part := false, typed := true } r.2)
     | .node kind sl aw pt items =>
       let id := f.nextId
       let isObj := match kind with | .obj _ => true | _ => false
@@ -372,7 +398,7 @@ mutual
       let r := evalItems cfg { f with nextId := id + 1 } pending id isObj pt p
         (match kind with | .list => some 0 | _ => none) items
       let its := match kind with
-        | .obj cls => normObjItems cls r.2
+        | .obj cls => normObjItems cls (r.2.map (fun kv => (kv.1, adoptPartial true pt kv.2)))
         | _ => r.2
       let t := Tree.node { id := id, parent := par, path := p, kind := kind, sealed := false, accW := aw, part := pt } its
       (r.1, sealIf sl t)
